@@ -226,3 +226,275 @@ Proof.
       * intros t0 Hlt0 Hp0. rewrite Hts, upd_other; [reflexivity|]. intros ->. congruence.
       * intros w0 Hlt0 Hp0 Hi. apply (idle_after _ _ _ _ _ Ha); [intros ->; congruence|exact Hi].
 Qed.
+
+Lemma drv_dstep c s q s' : drv_inv c s -> dstep c s q = Some s' -> drv_inv c s'.
+Proof.
+  intros [Hd Hr] H. pose proof (dstep_frame _ _ _ _ H) as (Fw & _). apply dstep_sum in H.
+  assert (Hother : forall p, p <> q ->
+            (forall p0, p0 <> q -> s_dr s' p0 = s_dr s p0) -> (forall p0, p0 <> q -> s_cancel s' p0 = s_cancel s p0) ->
+            (forall t, tpool c t <> q -> s_ts s' t = s_ts s t) -> dpool_ok c s' p).
+  { intros p Hne F1 F2 F3. apply (dpool_frame c s s' p); [apply F1; exact Hne|apply F2; exact Hne| | |apply Hd].
+    - intros t _ Hp. apply F3. congruence.
+    - intros w _ _ Hi. rewrite Fw. exact Hi. }
+  pose proof (Hd q) as Hq. unfold dpool_ok in Hq.
+  destruct H as [Hd0 Hfu Hac Hdr Hts Hcn Hfl | t Hd0 Hf Hdr Hts Hcn Hfl | Hd0 Hf Hdr Hts Hcn Hfl
+                 | Hd0 Hf Hdr Hts Hcn Hfl | Hd0 Hf Hok Hdr Hts Hcn Hfl | e Hd0 Hid Hdr Hts Hcn Hfl];
+    rewrite Hd0 in Hq.
+  all: split; [|intros t0 Ht0; rewrite Hts; try (apply Hr; exact Ht0)].
+  all: try (intros p; destruct (Nat.eq_dec p q) as [->|Hne];
+            [ unfold dpool_ok; rewrite Hdr, ?upd_same
+            | apply Hother; [exact Hne | intros p0 Hp0; rewrite Hdr, ?upd_other by exact Hp0; reflexivity
+                            | intros p0 Hp0; rewrite Hcn, ?upd_other by exact Hp0; reflexivity
+                            | intros t0 Ht0; rewrite Hts; reflexivity ] ]).
+  - (* start *) rewrite Hcn. apply Hq.
+  - (* submit: the pool stays in DSub *)
+    intros p. apply first_task_some in Hf. destruct Hf as (Hlt & Hp & Hu).
+    destruct (Nat.eq_dec p q) as [->|Hne].
+    + unfold dpool_ok. rewrite Hdr, Hd0, Hcn. exact Hq.
+    + apply Hother; [exact Hne | intros; rewrite Hdr; reflexivity | intros; rewrite Hcn; reflexivity|].
+      intros t0 Ht0. rewrite Hts, upd_other; [reflexivity|]. intros ->. congruence.
+  - (* submit: range *)
+    apply first_task_some in Hf. destruct Hf as (Hlt & _). rewrite upd_other by lia. apply Hr. exact Ht0.
+  - (* submissions finished *)
+    rewrite Hcn. split; [|exact Hq]. intros t Hlt Hp. rewrite Hts.
+    pose proof (first_task_none c s q is_unsub t Hf Hlt Hp) as Hn. intros E. rewrite E in Hn. discriminate.
+  - (* failure observed: shutdown(cancel_futures=True) *)
+    destruct Hq as [A B]. split.
+    + intros t Hlt Hp. rewrite Hts. apply A; assumption.
+    + unfold endok. rewrite Hcn, upd_same. split; [reflexivity|].
+      unfold failed in *. rewrite Hts. exact Hf.
+  - (* all futures completed normally *)
+    destruct Hq as [A B]. split.
+    + intros t Hlt Hp. rewrite Hts. apply A; assumption.
+    + unfold endok. rewrite Hcn. split; [exact B|]. unfold all_ok in *. rewrite Hts. exact Hok.
+  - (* joined *)
+    destruct Hq as [A B]. split; [|split].
+    + intros t Hlt Hp. rewrite Hts. apply A; assumption.
+    + unfold endok, failed, all_ok in *. rewrite Hcn, Hts. exact B.
+    + unfold all_idle in *. rewrite Fw. exact Hid.
+Qed.
+
+Lemma drv_step c s th s' : coh_inv c s -> drv_inv c s -> step c s th = Some s' -> drv_inv c s'.
+Proof.
+  intros Hco Hi H. destruct th as [|p|w]; simpl in H.
+  - apply mstep_frame in H. destruct H as (Hw & _ & _ & _ & _ & _ & _ & _ & Ht & Hd & Hc & _).
+    destruct Hi as [A B]. split; [|intros; rewrite Ht; apply B; assumption].
+    intros p. apply (dpool_frame c s s' p); [rewrite Hd|rewrite Hc|intros; rewrite Ht|intros; rewrite Hw|apply A]; auto.
+  - destruct (Nat.ltb p (np c)); [|discriminate]. eapply drv_dstep; eassumption.
+  - destruct (Nat.ltb w (nw c)) eqn:E; [|discriminate]. apply Nat.ltb_lt in E. eapply drv_wstep; eassumption.
+Qed.
+
+Lemma drv_reachable c s : reachable c s -> drv_inv c s.
+Proof.
+  induction 1; [apply drv_init|]. eapply drv_step; try eassumption. apply safe_reachable. assumption.
+Qed.
+
+(* ---------- the error path *)
+Definition wf_cfg (c : cfg) : Prop :=
+  (forall w, w < nw c -> wpool c w < np c) /\ (forall t, t < nt c -> tpool c t < np c).
+
+Definition main_inv (c : cfg) (s : state) : Prop :=
+  forall e, s_main s = MDeliv e -> all_drivers_done c s = true /\ e = any_driver_raised c s.
+
+Lemma main_step c s th s' : main_inv c s -> step c s th = Some s' -> main_inv c s'.
+Proof.
+  intros Hi H. destruct th as [|p|w]; simpl in H.
+  - unfold mstep in H. destruct (s_main s) eqn:Em; [|discriminate].
+    destruct (all_drivers_done c s) eqn:Ea; [|discriminate]. inv_some H.
+    intros e He. simpl in He. injection He as <-. split; [exact Ea|reflexivity].
+  - destruct (Nat.ltb p (np c)) eqn:Ep; [|discriminate]. apply Nat.ltb_lt in Ep.
+    pose proof (dstep_frame _ _ _ _ H) as (_ & _ & _ & _ & _ & _ & _ & _ & Fm).
+    intros e He. rewrite Fm in He. destruct (Hi e He) as [Ha _]. exfalso.
+    unfold all_drivers_done in Ha. rewrite forallb_forall in Ha.
+    specialize (Ha p (proj2 (in_pools c p) Ep)). unfold dstep in H.
+    destruct (s_dr s p); try discriminate Ha. discriminate H.
+  - destruct (Nat.ltb w (nw c)); [|discriminate].
+    pose proof (wstep_frame _ _ _ _ H) as (Fd & _ & Fm).
+    intros e He. rewrite Fm in He. unfold all_drivers_done, any_driver_raised. rewrite Fd. apply Hi. exact He.
+Qed.
+
+Lemma main_reachable c s : reachable c s -> main_inv c s.
+Proof. induction 1; [intros e He; discriminate|eapply main_step; eassumption]. Qed.
+
+Lemma error_path c s e :
+  wf_cfg c -> reachable c s -> s_main s = MDeliv e ->
+  (forall p, p < np c -> exists e', s_dr s p = DDone e') /\
+  (forall w, w < nw c -> s_wk s w = WIdle) /\
+  s_inflight s = 0%Z /\ s_over s = false /\
+  (e = true <-> exists t, t < nt c /\ s_ts s t = TDone true).
+Proof.
+  intros [Wf1 Wf2] Hr Hm.
+  destruct (main_reachable c s Hr e Hm) as [Hall He].
+  destruct (drv_reachable c s Hr) as [Hd _].
+  destruct (safe_reachable c s Hr) as [[Hreg Hov _ _] _ _ _ _].
+  unfold all_drivers_done in Hall. rewrite forallb_forall in Hall.
+  assert (Hdone : forall p, p < np c -> exists e', s_dr s p = DDone e').
+  { intros p Hp. specialize (Hall p (proj2 (in_pools c p) Hp)). destruct (s_dr s p); try discriminate Hall. eauto. }
+  assert (Hidle : forall w, w < nw c -> s_wk s w = WIdle).
+  { intros w Hw. destruct (Hdone (wpool c w) (Wf1 w Hw)) as [e' He'].
+    specialize (Hd (wpool c w)). unfold dpool_ok in Hd. rewrite He' in Hd. destruct Hd as (_ & _ & Hi).
+    rewrite all_idle_iff in Hi. apply Hi; [exact Hw|reflexivity]. }
+  split; [exact Hdone|]. split; [exact Hidle|]. split; [|split].
+  - rewrite Hreg. apply sumZ_zero. intros w Hw. apply in_workers in Hw. rewrite (Hidle w Hw). reflexivity.
+  - assert (sumZ (fun w => held_over (s_wk s w)) (workers c) = 0%Z) as Hz.
+    { apply sumZ_zero. intros w Hw. apply in_workers in Hw. rewrite (Hidle w Hw). reflexivity. }
+    rewrite Hz in Hov. destruct (s_over s); [discriminate Hov|reflexivity].
+  - rewrite He. unfold any_driver_raised. rewrite existsb_exists. split.
+    + intros (p & Hin & Hp). apply in_pools in Hin. specialize (Hd p). unfold dpool_ok in Hd.
+      destruct (s_dr s p) as [| | | |[]]; try discriminate Hp.
+      destruct Hd as (_ & [_ Hf] & _). apply failed_iff in Hf. destruct Hf as (t & Hlt & _ & Ht). eauto.
+    + intros (t & Hlt & Ht). exists (tpool c t). split; [apply in_pools; apply Wf2; exact Hlt|].
+      destruct (Hdone (tpool c t) (Wf2 t Hlt)) as [e' He'].
+      specialize (Hd (tpool c t)). unfold dpool_ok in Hd. rewrite He' in Hd. rewrite He'.
+      destruct e'; [reflexivity|]. destruct Hd as (_ & [_ Hok] & _). rewrite all_ok_iff in Hok.
+      rewrite (Hok t Hlt eq_refl) in Ht. discriminate.
+Qed.
+
+(* ---------- termination: a measure that strictly decreases on every step *)
+Definition wm (x : wst) : Z :=
+  match x with
+  | WIdle => 0
+  | WRun _ pc =>
+      match pc with
+      | PCbIn => 12 | PCbOut => 11 | PCb => 10 | PCbUnOut _ => 9 | PCbUnIn _ => 8 | PTLock => 7
+      | PAcq => 6 | PSleep => 6 | PWrite _ => 5 | PRel _ _ => 4 | PTUn _ => 3 | PFin _ => 2
+      end
+  end%Z.
+Definition aw (x : wst) : Z := match x with WRun _ PAcq => 1 | _ => 0 end%Z.
+Definition tm (x : tst) : Z := match x with TUnsub => 15 | TQueued => 14 | _ => 0 end%Z.
+Definition dm (x : dpc) : Z := match x with DNot => 4 | DSub => 3 | DWait => 2 | DJoin _ => 1 | DDone _ => 0 end%Z.
+Definition mm (x : mpc) : Z := match x with MWait => 1 | MDeliv _ => 0 end%Z.
+
+Definition level (c : cfg) (s : state) : Z :=
+  (sumZ (fun t => tm (s_ts s t)) (tasks c) + sumZ (fun w => wm (s_wk s w)) (workers c)
+   + sumZ (fun p => dm (s_dr s p)) (pools c) + mm (s_main s))%Z.
+Definition awake (c : cfg) (s : state) : Z := sumZ (fun w => aw (s_wk s w)) (workers c).
+(* lexicographic (level, awake) packed into one number: awake <= nw *)
+Definition measure (c : cfg) (s : state) : Z := ((Z.of_nat (nw c) + 1) * level c s + awake c s)%Z.
+
+Lemma wm_wake x : wm (wake1 x) = wm x.
+Proof. destruct x as [|t []]; reflexivity. Qed.
+
+Lemma sumZ_const_le g l k : (forall x, In x l -> (g x <= k)%Z) -> (sumZ g l <= k * Z.of_nat (length l))%Z.
+Proof.
+  induction l as [|a l IH]; intros H; simpl sumZ; [simpl; lia|].
+  pose proof (H a (or_introl eq_refl)). assert (sumZ g l <= k * Z.of_nat (length l))%Z by (apply IH; intros; apply H; right; assumption).
+  simpl length. lia.
+Qed.
+
+Lemma awake_bounds c s : (0 <= awake c s <= Z.of_nat (nw c))%Z.
+Proof.
+  unfold awake. split.
+  - apply sumZ_nonneg. intros w _. destruct (s_wk s w) as [|t []]; simpl; lia.
+  - pose proof (sumZ_const_le (fun w => aw (s_wk s w)) (workers c) 1%Z) as H.
+    unfold workers in *. rewrite seq_length in H. rewrite Z.mul_1_l in H. apply H.
+    intros w _. destruct (s_wk s w) as [|t []]; simpl; lia.
+Qed.
+
+Lemma level_nonneg c s : (0 <= level c s)%Z.
+Proof.
+  unfold level.
+  assert (0 <= sumZ (fun t => tm (s_ts s t)) (tasks c))%Z by (apply sumZ_nonneg; intros t _; destruct (s_ts s t); simpl; lia).
+  assert (0 <= sumZ (fun w => wm (s_wk s w)) (workers c))%Z by (apply sumZ_nonneg; intros w _; destruct (s_wk s w) as [|t []]; simpl; lia).
+  assert (0 <= sumZ (fun p => dm (s_dr s p)) (pools c))%Z by (apply sumZ_nonneg; intros p _; destruct (s_dr s p); simpl; lia).
+  destruct (s_main s); simpl; lia.
+Qed.
+
+Lemma measure_nonneg c s : (0 <= measure c s)%Z.
+Proof. unfold measure. pose proof (level_nonneg c s). pose proof (awake_bounds c s). nia. Qed.
+
+Lemma measure_dec_intro c s s' :
+  (level c s' <= level c s - 1)%Z \/ (level c s' = level c s /\ (awake c s' < awake c s)%Z) ->
+  (measure c s' < measure c s)%Z.
+Proof.
+  unfold measure. pose proof (awake_bounds c s). pose proof (awake_bounds c s').
+  pose proof (level_nonneg c s'). intros [H2|[H2 H3]]; nia.
+Qed.
+
+Lemma sum_ts_upd c (ts : nat -> tst) t v :
+  t < nt c ->
+  sumZ (fun x => tm (upd ts t v x)) (tasks c) = (sumZ (fun x => tm (ts x)) (tasks c) - tm (ts t) + tm v)%Z.
+Proof. intros H. apply sumZ_upd; [apply nodup_tasks|apply in_tasks; exact H]. Qed.
+
+Lemma sum_ts_upd_le c (ts : nat -> tst) t v :
+  (sumZ (fun x => tm (upd ts t v x)) (tasks c) <= sumZ (fun x => tm (ts x)) (tasks c) + tm v)%Z.
+Proof.
+  destruct (Nat.lt_ge_cases t (nt c)) as [H|H].
+  - rewrite sum_ts_upd by exact H. destruct (ts t); simpl; lia.
+  - rewrite sumZ_upd_notin; [destruct v; simpl; lia|]. rewrite in_tasks. lia.
+Qed.
+
+Lemma sum_dr_upd c (dr : nat -> dpc) p v :
+  p < np c ->
+  sumZ (fun x => dm (upd dr p v x)) (pools c) = (sumZ (fun x => dm (dr x)) (pools c) - dm (dr p) + dm v)%Z.
+Proof. intros H. apply sumZ_upd; [apply nodup_pools|apply in_pools; exact H]. Qed.
+
+Lemma measure_wstep c s w s' : w < nw c -> wstep c s w = Some s' -> (measure c s' < measure c s)%Z.
+Proof.
+  intros Hw H. apply measure_dec_intro. unfold wstep in H.
+  destruct (s_wk s w) as [|t pc] eqn:Ew; [|destruct pc]; cbv beta iota zeta in H;
+    try discriminate H; break_match H; inv_some H.
+  (* all cases except notify_all: the worker array changes at w only *)
+  all: try (unfold level, awake; simpl;
+            rewrite ?(sum_wk_upd wm), ?(sum_wk_upd aw) by exact Hw; rewrite ?Ew; simpl;
+            try unfold first_pc; try unfold after_outer; ifs; simpl; lia).
+  - (* dequeue *)
+    apply first_task_some in Heqo. destruct Heqo as (Hlt & _ & Hq).
+    destruct (s_ts s n) eqn:Et; try discriminate Hq.
+    left. unfold level; simpl. rewrite (sum_ts_upd c _ n) by exact Hlt. rewrite Et.
+    rewrite (sum_wk_upd wm) by exact Hw. rewrite Ew. unfold first_pc. ifs; simpl; lia.
+  - (* release + notify_all *)
+    left. unfold level; simpl. rewrite (sum_wk_wake wm) by apply wm_wake.
+    rewrite (sum_wk_upd wm) by exact Hw. simpl. rewrite Ew. simpl. lia.
+  - left. unfold level; simpl. rewrite (sum_wk_wake wm) by apply wm_wake.
+    rewrite (sum_wk_upd wm) by exact Hw. simpl. rewrite Ew. simpl. lia.
+  - (* finish *)
+    left. unfold level; simpl. pose proof (sum_ts_upd_le c (s_ts s) t (TDone e)) as Hle. simpl in Hle.
+    rewrite (sum_wk_upd wm) by exact Hw. rewrite Ew. simpl. lia.
+Qed.
+
+Lemma measure_dstep c s p s' : p < np c -> dstep c s p = Some s' -> (measure c s' < measure c s)%Z.
+Proof.
+  intros Hp H. apply measure_dec_intro. left.
+  pose proof (dstep_frame _ _ _ _ H) as (Fw & _ & _ & _ & _ & _ & _ & _ & Fm). apply dstep_sum in H.
+  unfold level. rewrite Fw, Fm.
+  destruct H as [Hd0 Hfu Hac Hdr Hts Hcn Hfl | t Hd0 Hf Hdr Hts Hcn Hfl | Hd0 Hf Hdr Hts Hcn Hfl
+                 | Hd0 Hf Hdr Hts Hcn Hfl | Hd0 Hf Hok Hdr Hts Hcn Hfl | e Hd0 Hid Hdr Hts Hcn Hfl];
+    rewrite Hdr, Hts; try (rewrite (sum_dr_upd c _ p) by exact Hp; rewrite Hd0; simpl; lia).
+  apply first_task_some in Hf. destruct Hf as (Hlt & _ & Hu).
+  rewrite (sum_ts_upd c _ t) by exact Hlt. destruct (s_ts s t); try discriminate Hu. simpl. lia.
+Qed.
+
+Lemma measure_mstep c s s' : mstep c s = Some s' -> (measure c s' < measure c s)%Z.
+Proof.
+  intros H. apply measure_dec_intro. left. unfold mstep in H.
+  destruct (s_main s) eqn:Em; [|discriminate]. break_match H. inv_some H.
+  unfold level; simpl. rewrite Em. simpl. lia.
+Qed.
+
+Lemma measure_step c s th s' : step c s th = Some s' -> (0 <= measure c s' < measure c s)%Z.
+Proof.
+  intros H. split; [apply measure_nonneg|]. destruct th as [|p|w]; simpl in H.
+  - apply measure_mstep; exact H.
+  - destruct (Nat.ltb p (np c)) eqn:E; [|discriminate]. apply Nat.ltb_lt in E. eapply measure_dstep; eassumption.
+  - destruct (Nat.ltb w (nw c)) eqn:E; [|discriminate]. apply Nat.ltb_lt in E. eapply measure_wstep; eassumption.
+Qed.
+
+(* hence every schedule the system can follow from s is shorter than measure s *)
+Lemma run_length_bound c : forall sched s s', run c s sched = Some s' -> (Z.of_nat (length sched) <= measure c s - measure c s')%Z.
+Proof.
+  induction sched as [|th r IH]; intros s s' H; simpl in H.
+  - injection H as <-. simpl. lia.
+  - destruct (step c s th) as [s1|] eqn:E; [|discriminate].
+    pose proof (measure_step _ _ _ _ E). specialize (IH _ _ H). simpl length. lia.
+Qed.
+
+Lemma measure_init c :
+  measure c init = ((Z.of_nat (nw c) + 1) * (15 * Z.of_nat (nt c) + 4 * Z.of_nat (np c) + 1))%Z.
+Proof.
+  unfold measure, level, awake, init. cbn [s_ts s_wk s_dr s_main tm wm dm mm aw].
+  assert (forall l, sumZ (fun _ => 15%Z) l = (15 * Z.of_nat (length l))%Z) as H15 by (induction l; cbn [sumZ length]; lia).
+  assert (forall l, sumZ (fun _ => 4%Z) l = (4 * Z.of_nat (length l))%Z) as H4 by (induction l; cbn [sumZ length]; lia).
+  assert (forall l, sumZ (fun _ => 0%Z) l = 0%Z) as H0 by (induction l; cbn [sumZ]; lia).
+  rewrite H15, H4, !H0. unfold tasks, pools. rewrite !seq_length. unfold nt, np. lia.
+Qed.
